@@ -91,6 +91,8 @@ class Check:
 
     # ------------------------------------------------------------------ traces
     def add(self, ex):
+        if not getattr(self, "script_sample", None) and 3 < len(ex.lines) < 60:
+            self.script_sample = dict(execution=ex.name, build=ex.variant, script=[l[:160] for l in ex.lines[:25]])
         self.execs.append(ex)
 
     def chunks(self, execs, max_lines):
@@ -165,7 +167,8 @@ class Check:
                         or line.startswith('{"e":"Eval"') or line.startswith('{"e":"Mul2"'):
                     self.begin_count += 1
                     self.begin_hashes.add(hashlib.blake2b(line.encode(), digest_size=8).digest())
-                    if len(self.samples) < 4 and self.begin_count % 37 == 1:
+                    if len(self.samples) < 5 and self.begin_count % 37 == 1 and '"op":"Inject"' not in line[:40] \
+                            and '"op":"Free"' not in line[:40] and '"op":"Enable"' not in line[:40]:
                         self.samples.append(json.loads(line[:4000]) if len(line) < 4000 else line[:300])
         self.events += n
         return resets
@@ -260,7 +263,8 @@ class Check:
             evaluations=self.begin_count, distinct_nontrivial=len(self.begin_hashes),
             rule=self.rule or "evaluations = API calls and direct observations recorded from the C library and judged by TLC; "
                               "distinct_nontrivial = those with distinct content (operation + arguments), by hash",
-            samples=self.samples[:6] or ["(no implementation events in this run)"],
+            samples=(self.samples[:5] + ([self.script_sample] if getattr(self, "script_sample", None) else []))
+            or ["(no implementation events in this run)"],
             trace_events=self.events,
             models=self.models,
             checker_cmd="java -cp tla2tools.jar tlc2.TLC (TLC 1.8.0), PolyseedTrace.tla / Theorems*.tla / PolyseedMC.tla",
